@@ -45,9 +45,13 @@ func init() {
 			}
 			s.Tick(s.now + 1)
 			s.Drain(1, 200)
-			s.Submit("cmp", reqComplete(first, nil, false, promise.Resolved, "v"))
-			s.Tick(s.now + 1)
-			s.Drain(1, 200)
+			// in a third of the runs the first registration is still a registration when the second one arrives (it is
+			// then swallowed: acknowledged, promise pending, nothing stored); otherwise it has become its task
+			if r.Intn(3) != 0 {
+				s.Submit("cmp", reqComplete(first, nil, false, promise.Resolved, "v"))
+				s.Tick(s.now + 1)
+				s.Drain(1, 200)
+			}
 			if sub {
 				s.Submit("reg", reqSubscription("c", "a:b", T0+100000, `"poll://default/w"`))
 			} else {
